@@ -545,6 +545,23 @@ func (c GBCase) expect() (gbExpect, error) {
 	return e, nil
 }
 
+// hasDuplicateKeys reports whether two canonical rows share their key fields.
+func hasDuplicateKeys(rows []string, nkeys int) bool {
+	seen := map[string]bool{}
+	for _, r := range rows {
+		f := strings.SplitAfterN(r, " ", nkeys+1)
+		if len(f) < nkeys {
+			continue
+		}
+		k := strings.Join(f[:nkeys], "")
+		if seen[k] {
+			return true
+		}
+		seen[k] = true
+	}
+	return false
+}
+
 func weakPrefix(keys []KeyExpr, vals []V) string {
 	var sb strings.Builder
 	for i, k := range keys {
@@ -555,7 +572,7 @@ func weakPrefix(keys []KeyExpr, vals []V) string {
 
 // nonCollidingEqual compares only the groups whose key does not compare equal
 // to a different key of the input.
-func (e gbExpect) nonCollidingEqual(out []zed.Value, nkeys int, bag map[string]bool) bool {
+func (e gbExpect) nonCollidingEqual(out []zed.Value, nkeys int, bag map[string]bool, dedup bool) bool {
 	var got, want []string
 	for _, o := range out {
 		w := canonRowWeak(o, nkeys, bag)
@@ -571,6 +588,9 @@ func (e gbExpect) nonCollidingEqual(out []zed.Value, nkeys int, bag map[string]b
 		if !e.colliding[e.strongClass[i]] {
 			want = append(want, r)
 		}
+	}
+	if dedup {
+		got, want = mapStrings(got, dedupFuse), mapStrings(want, dedupFuse)
 	}
 	sort.Strings(got)
 	sort.Strings(want)
@@ -725,15 +745,20 @@ func checkGB(c GBCase, seed uint64, tier string, skip map[int]bool, progress fun
 			sig = "fuse-partials-duplicate-union-member"
 		case exp.hasFuse && v.Mode == "partials" && sameStrings(gotF, wantF):
 			sig = "fuse-partials-duplicate-union-member"
-		case (v.Mode == "sorted" || v.Mode == "sorted2") && c.columnHasMissingAndNull(v.Field):
+		case v.Mode == "sorted2" && hasDuplicateKeys(got, len(c.Keys)):
+			// the same key emitted more than once: early release of an unfinished group
+			sig = "groupby-declared-sort-on-secondary-key"
+		case v.Mode == "sorted" && c.columnHasMissingAndNull(v.Field):
 			sig = "groupby-sorted-missing-null-interleaved"
 		case exp.collision != "" && spillable && (sameStrings(gotW, exp.weak) || exp.hasFuse && sameStrings(mapStrings(gotW, dedupFuse), mapStrings(exp.weak, dedupFuse))):
 			sig = "groupby-spill-merges-compare-equal-keys:" + exp.collision
-		case exp.collision != "" && (v.Mode == "partials" && v.Limit2 > 0) && exp.nonCollidingEqual(out, len(c.Keys), bag):
+		case v.Mode == "partials" && v.Limit2 > 0 && hasDuplicateKeys(got, len(c.Keys)):
+			// the consumer sees two keys that print alike as different: a spilling
+			// producer emitted the key with a type of its spill file's context
+			sig = "groupby-partials-spilled-key-of-foreign-context"
+		case exp.collision != "" && (v.Mode == "partials" && v.Limit2 > 0) && (exp.nonCollidingEqual(out, len(c.Keys), bag, false) || exp.hasFuse && exp.nonCollidingEqual(out, len(c.Keys), bag, true)):
 			// a producer merged part of a class of compare-equal keys
 			sig = "groupby-spill-merges-compare-equal-keys:" + exp.collision
-		case v.Mode == "sorted2":
-			sig = "groupby-declared-sort-on-secondary-key"
 		case v.Mode == "sorted" && v.Limit > 0:
 			sig = "groupby-sorted-spill-release-uses-wrong-key"
 		default:
